@@ -154,8 +154,20 @@ func (t *Tree) render(style int, r *SM64) string {
 	case 2:
 		s := t.renderNoise(r, 0)
 		return s
+	case 3:
+		return tighten(t.renderFull())
+	case 4:
+		return tighten(t.renderMin(0))
 	}
 	return t.renderMin(0)
+}
+
+// tighten removes the blanks next to parentheses: "(A) AND (B OR C)" -> "(A)AND(B OR C)"
+func tighten(s string) string {
+	for _, p := range [][2]string{{"( ", "("}, {" )", ")"}, {") ", ")"}, {" (", "("}} {
+		s = strings.ReplaceAll(s, p[0], p[1])
+	}
+	return s
 }
 func opName(o byte) string {
 	if o == 'A' {
